@@ -131,6 +131,20 @@ Proof.
 Qed.
 
 
+(* the same when the step changed only ghosts of other arguments (g_awake, g_under) *)
+Definition sh_same (sh sh' : qshared) : Prop :=
+  g_enq sh' = g_enq sh /\ ql sh' = ql sh /\ nextid sh' = nextid sh /\ clog sh' = clog sh /\ g_disp sh' = g_disp sh /\
+  g_taken sh' = g_taken sh /\ g_cleared sh' = g_cleared sh /\ cec sh' = cec sh /\ cnc sh' = cnc sh.
+
+Lemma step_ok_same2 sh sh' lo lo' : sh_same sh sh' -> ltemp lo' = ltemp lo -> lev lo' = lev lo -> step_ok sh lo sh' lo'.
+Proof.
+  intros (E1 & E2 & E3 & E4 & E5 & E6 & E7 & E8 & E9) H1 H2. split.
+  - exists []. unfold inflight, levl, consumed. rewrite H1, H2, E1, E2, E3, E5, E6, E7. cbn [app].
+    split; [reflexivity|]. split; [apply Permutation_refl|]. left; auto.
+  - rewrite E4, E5. auto.
+  - auto.
+Qed.
+
 Lemma dispatch_all_fields t es : forall sh,
   ql (dispatch_all t sh es) = ql sh /\ fl (dispatch_all t sh es) = fl sh /\ nextid (dispatch_all t sh es) = nextid sh /\
   g_enq (dispatch_all t sh es) = g_enq sh /\
@@ -173,8 +187,12 @@ Proof.
   intros Ha Hb Q lo H. apply wpl_app. apply Ha. intros lo1 A1 B1. apply Hb. intros lo2 A2 B2. apply H; congruence.
 Qed.
 
-Ltac lo_simpl := cbn [fst snd ltemp lev lb lbe lres ltimedout lidle lreg lslot lshow lheld lsnap lseen ltaking lo_temp lo_kept lo_idle lo_reg lo_b lo_be lo_res lo_slot lo_to lo_ev lo_show lo_held lo_snap lo_seen lo_taking lo0] in *.
-Ltac so_same := apply step_ok_same; lo_simpl; congruence.
+Ltac lo_simpl := cbn [fst snd ltemp lev lb lbe lres ltimedout lidle lreg lslot lshow lheld lsnap lseen ltaking lowes lo_temp lo_kept lo_idle lo_reg lo_b lo_be lo_res lo_slot lo_to lo_ev lo_show lo_held lo_snap lo_seen lo_taking lo_owes lo0] in *.
+Ltac so_same :=
+  first [ apply step_ok_same; lo_simpl; congruence
+        | apply step_ok_same2;
+          [ repeat match goal with |- context[if ?c then _ else _] => destruct c end; repeat split; reflexivity
+          | lo_simpl; congruence | lo_simpl; congruence ] ].
 
 Ltac wp1 :=
   cbv beta;
@@ -243,7 +261,7 @@ Proof.
   - destruct (split_until p r) as [a b]. cbn [fst snd] in *. rewrite !count_cons. lia.
 Qed.
 
-Ltac sh_simpl := cbn [ql fl cec cnc oqm ofm nextid clog g_enq g_disp g_taken g_cleared g_settled g_putbacks sh_settle sh_putback
+Ltac sh_simpl := cbn [ql fl cec cnc oqm ofm nextid clog g_enq g_disp g_taken g_cleared g_settled g_putbacks g_awake g_under sh_settle sh_putback sh_awake sh_unawake sh_under
                       sh_ql sh_fl sh_ec sh_nc sh_oqm sh_ofm sh_log sh_enq sh_disp sh_take sh_clear] in *.
 
 Ltac perm :=
@@ -308,7 +326,7 @@ Ltac endok :=
   lo_simpl; split; lo_simpl; congruence.
 
 Ltac wp_call :=
-  cbn [code_of]; unfold processif_code, processuntil_code, putback; cbv beta iota delta [GenQConc.dqn_dtor_decrement_under_mutex GenQConc.processif_putback_notifies GenQConc.processuntil_putback_notifies];
+  cbn [code_of]; unfold processif_code, processuntil_code, putback, notify_code, dqn_ghost; cbv beta iota delta [GenQConc.dqn_dtor_decrement_under_mutex GenQConc.processif_putback_notifies GenQConc.processuntil_putback_notifies];
   repeat wp2; try so_same; try so_solve; try endok.
 
 Lemma all_calls_wp c : wpl (code_of c) EndOK lo0.
